@@ -53,6 +53,9 @@ func (p c02) Gen(c *run.Ctx, idx int) (json.RawMessage, error) {
 	if uidx%6 == 5 {
 		cu, err = universe(c.Seed, "hostile", uidx, hostileProfile)
 	}
+	if uidx%6 == 4 {
+		cu, err = universe(c.Seed, "odd", uidx, oddNamesProfile)
+	}
 	if err != nil {
 		return nil, err
 	}
